@@ -9,6 +9,7 @@ git -C /repo worktree add --detach "$wt" "$sha^" >/dev/null 2>&1 || { echo "cann
 cp /repo/Cargo.lock "$wt/" 2>/dev/null
 PV_REPO="$wt" PV_SCRATCH="/tmp/pvscr-$sha" /verif/pv check "$prop" "$tier"
 rc=$?
+mkdir -p /verif/out/replays/prefix-$sha && cp /tmp/pvscr-$sha/root/out/replays/* /verif/out/replays/prefix-$sha/ 2>/dev/null
 git -C /repo worktree remove --force "$wt" >/dev/null 2>&1
 rm -rf "/tmp/pvscr-$sha"
 exit $rc
